@@ -34,9 +34,11 @@ def u_stdag_get_width():
                 else:
                     c.prove("post[%s]:%s" % (tag, "cached-value-returned" if cached else "full-width-computed"), r == (cached if cached else full), prop=P, info=dict(got=str(r)))
                     c.prove("post[%s]:cache-holds-the-full-width-afterwards" % tag, (written.get("width", cached)) == (cached if cached else full), prop=P)
-    return Unit("flowpaths/stdag.py", "stDAG.get_width", h, globs=dict(utils=U), props=[P],
+    u = Unit("flowpaths/stdag.py", "stDAG.get_width", h, globs=dict(utils=U), props=[P],
                 abstractions=["concrete scenario runs (cache empty/set x ignore list None/[]/1 edge/2 edges) on a poisoned self: any other attribute read is reported",
                               "compute_max_edge_antichain is an uninterpreted function of its weight function"])
+    u.scenario = True           # every clause of this unit is a check on a concrete scenario: reported as bounded evaluations, not as discharged obligations
+    return u
 
 
 def u_stdigraph_get_width():
@@ -107,11 +109,13 @@ def u_stdigraph_get_width():
                             z3.BoolVal(got == want), prop=P, info=dict(got=str(sorted(got.items()))[:300], want=str(sorted(want.items()))[:300]))
     import copy as _copy
     from vf.replay import replay_stdigraph_width
-    return Unit("flowpaths/stdigraph.py", "stDiGraph.get_width", h, globs=dict(utils=U, copy=_copy), props=[P], replay=replay_stdigraph_width,
+    u = Unit("flowpaths/stdigraph.py", "stDiGraph.get_width", h, globs=dict(utils=U, copy=_copy), props=[P], replay=replay_stdigraph_width,
                 abstractions=["concrete scenario runs: 4 small digraphs (2-cycle and 3-cycle with bundles of 2 / 3 parallel inter-SCC edges, a self-loop SCC, a DAG) x (no list, empty list, every "
                               "single edge, every pair of edges, two triples) x (cache empty / set), on real stDiGraph objects; bounded in the scenario, not in the antichain routine",
                               "compute_max_edge_antichain is replaced by a recorder (uninterpreted); the names of the expanded edges are the object's own"],
                 assumptions=["A2 networkx condensation: mapping / bundles as read from the object", "A4 (not proved): width = maximum weighted antichain of the expanded condensation"])
+    u.scenario = True
+    return u
 
 
 def all_units():
